@@ -430,3 +430,40 @@ m('M41e', 'C17', 'C17.charge', 'shared_future.h',
   """       if (!(ptr->operator co_await()).subscribe(&ptr->resolve_tracer)) {
            _ptr = nullptr;
       }""", """       (void)(ptr->operator co_await()).subscribe(&ptr->resolve_tracer);""", 'refused registration keeps self reference')
+m('M42', 'C18', 'C18.conv-siblings', 'future_conv.h',
+  """        try {
+            return p(fn(*_this->_fut, ctx));
+        } catch (...) {
+            return p(std::current_exception());
+        }""", """        return p(fn(*_this->_fut, ctx));""", 'one converter loses its catch-all')
+m('M43', 'C18', 'C18.', 'future.h',
+  "    virtual ~future_with_cb() = default;", "    ~future_with_cb() = default;", 'non-virtual destructor')
+m('M43b', 'C18', 'C18.self-owning', 'future.h',
+  """            _this->_fn(*_this);
+            delete _this;""", """            delete _this;
+            _this->_fn(*_this);""", 'delete before callback')
+m('M43c', 'C18', 'C18.callback-once', 'callback_awaiter.h',
+  """    } catch (...) {
+        fn(await_result<RetVal>{});
+    }""", """    } catch (...) {
+    }""", 'exception outcome not reported')
+m('M43d', 'C18', 'C18.refused-completes-now', 'future.h',
+  """        _fut << std::forward<Fn>(xfn);
+        if (!_fut.subscribe(this)) {
+            this->resume();
+        }""", """        _fut << std::forward<Fn>(xfn);
+        if (_fut.subscribe(this)) {
+            this->resume();
+        }""", 'completion on the registered edge')
+m('M43e', 'C18', 'C18.conv-siblings', 'future_conv.h',
+  """        try {
+            return (ctx->*fn)(p);
+        } catch (...) {
+            return p(std::current_exception());
+        }""", """        try {
+            auto r = (ctx->*fn)(p);
+            p(drop);
+            return r;
+        } catch (...) {
+            return p(std::current_exception());
+        }""", 'delegating shape also resolves')
